@@ -1,11 +1,7 @@
-"""Offline setup: put icontract beside the repository's interpreter (/verif/.deps, git-ignored).
-Never fails the build: the contracts fall back to a local wrapper when the wheel is unavailable."""
-from .run import ensure_deps
+"""Offline setup: nothing to build. The framework is pure Python run by the repository's interpreter (/venv);
+bubus is imported from /repo's working tree (editable install), so every check sees the current sources."""
+import sys
 
 if __name__ == '__main__':
-    ensure_deps()
-    try:
-        import icontract  # noqa: F401
-        print('icontract available')
-    except Exception as ex:  # pragma: no cover
-        print('icontract unavailable, using local fallback:', ex)
+    import bubus
+    print('bubus from', bubus.__file__, 'python', sys.version.split()[0])
